@@ -1232,7 +1232,15 @@ def linear_node_rounding(facet, case, kind, msg, data):
     return facet == "node_exact" and kind == "node-linear" and case.get("method") == "linear"
 
 
-FINDINGS = {"C09/linear-node-rounding": linear_node_rounding}
+def shared_points_stale(facet, case, kind, msg, data):
+    """Two ephemerides holding the same point objects (one built from the other's points, or a shallow
+    copy): a form / frame change in place through one of them is not seen by the interpolator the other
+    had already built (it keeps a copy of the values)."""
+    return (facet == "convert_in_place" and kind == "stale-table-shared"
+            and any(o["op"] in ("share_new", "share_new_used", "share_copy") for o in case["ops"]))
+
+
+FINDINGS = {"C09/linear-node-rounding": linear_node_rounding, "C09/shared-points-stale": shared_points_stale}
 
 FACETS = [
     Facet("node_exact", node_case, check_node_exact, setup=_setup,
